@@ -18,7 +18,7 @@ pub enum Input {
     Text { text: String, src: String },
     /// `capped`: the generator wanted a larger depth but the kind has a recorded stack-overflow finding
     Nest { kind: String, depth: u32, closed: bool, capped: bool },
-    /// `max_mib`: size bound of the scaled input (4 quick, 16 thorough)
+    /// `max_mib`: size bound of the scaled input (1 quick, 4 thorough)
     Scale { unit: String, src: String, max_mib: u8 },
 }
 
@@ -38,10 +38,29 @@ pub struct C02;
 pub const MAX_DEPTH: u32 = 200_000;
 pub const STACK: usize = 2 << 20;
 
-/// Kinds with a recorded (open) stack-overflow finding: the generator keeps their depth at or below the value
-/// given here (= comfortably below the smallest crashing depth measured by bisection on a 2 MiB stack, release
-/// build; see KNOWN_FINDINGS.json).  Kinds without an entry are explored up to MAX_DEPTH.
-pub const DEPTH_CAPS: &[(&str, u32)] = &[];
+/// Depth caps of the "chain" kinds: left-associative chains are parsed by a loop (no recursion, so the parser's
+/// nesting limit does not apply) but produce a syntax tree as deep as the chain is long.  Two recorded, open
+/// findings make deep chains unusable for exploration:
+/// * C02-F2 dropping a tree deeper than ~26 100 levels overflows a 2 MiB stack (rowan's recursive drop); measured
+///   smallest crashing depths: 26 130..26 134 levels (method-chain: 13 066 units = 2 levels each);
+/// * C02-F3 parse time is quadratic in the tree depth when the chain nodes are interned (rowan NodeCache re-hash):
+///   4 000 levels = 0.1 s, 32 000 levels = 7 s, 200 000 levels = minutes (watchdog).
+/// The spaced add chain is not interned (5 children per node), parses in linear time and carries the F2 witness.
+/// Kinds without an entry are explored up to MAX_DEPTH.  Capped cases are counted (`capped:<kind>`).
+pub const DEPTH_CAPS: &[(&str, u32)] = &[
+    ("add-chain", 4000),
+    ("or-chain", 4000),
+    ("index-chain", 4000),
+    ("call-chain", 4000),
+    ("method-chain", 2000),
+    ("string-call-chain", 4000),
+    ("safe-nav-chain", 4000),
+    ("doc-union-chain", 4000),
+    ("doc-inter-chain", 4000),
+    ("doc-array", 4000),
+    ("doc-nullable", 4000),
+    ("add-chain-spaced", 20000),
+];
 
 pub fn depth_cap(kind: &str) -> u32 {
     DEPTH_CAPS.iter().find(|c| c.0 == kind).map(|c| c.1).unwrap_or(MAX_DEPTH)
@@ -138,16 +157,48 @@ fn tree_depth(tree: &emmylua_parser::LuaSyntaxTree) -> usize {
     max
 }
 
+/// minor page faults of this thread so far
+fn thread_minflt() -> i64 {
+    // SAFETY: plain syscall writing into a local
+    unsafe {
+        let mut ru: libc::rusage = std::mem::zeroed();
+        libc::getrusage(libc::RUSAGE_THREAD, &mut ru);
+        ru.ru_minflt
+    }
+}
+
 impl C02 {
-    /// thread-CPU seconds of one parse.  On this kind of machine (VM, shared with other jobs) a measurement can be
-    /// inflated several-fold by contention but never deflated, so all decisions use minima over repeated runs.
-    fn measure(&self, c: &Case, text: &str) -> Result<f64, String> {
+    /// (thread-CPU seconds of one parse, undisturbed?).  A run is disturbed when it touched fresh memory (minor
+    /// page faults): first-touch faults are the one size-dependent noise source seen on the (virtualised, shared)
+    /// test machine - under memory pressure they made a 1 MiB single-token input look 20x slower than linear.
+    /// Worker processes keep their heap (mallopt in main.rs), so repeated runs of one input converge to ~0 faults.
+    /// Contention can inflate a measurement several-fold but never deflate it, so every time is an upper bound and
+    /// all decisions use minima; the larger input of a suspicious pair only counts when undisturbed.
+    fn measure(&self, c: &Case, text: &str) -> Result<(f64, bool), String> {
         let cfg = parser_config(c, None);
+        let f0 = thread_minflt();
         let t0 = thread_cpu_s();
         let tree = catch(|| LuaParser::parse(text, cfg))?;
         let t1 = thread_cpu_s();
+        let faults = thread_minflt() - f0;
         drop(tree);
-        Ok(t1 - t0)
+        Ok((t1 - t0, faults as usize <= 64 + text.len() / 16384))
+    }
+
+    /// minimum over undisturbed runs (up to `tries` runs, stops after `want` undisturbed ones); None if none was
+    fn clean_min(&self, c: &Case, text: &str, want: usize, tries: usize) -> Result<Option<f64>, String> {
+        let (mut best, mut good) = (f64::INFINITY, 0);
+        for _ in 0..tries {
+            let (t, clean) = self.measure(c, text)?;
+            if clean {
+                best = best.min(t);
+                good += 1;
+                if good >= want {
+                    break;
+                }
+            }
+        }
+        Ok(if good > 0 { Some(best) } else { None })
     }
 
     /// does the tree get deeper when the unit is repeated more often?
@@ -185,15 +236,33 @@ impl C02 {
                 return Verdict::pass(prev.is_some());
             }
             let text = unit.repeat(k);
-            let t = match self.measure(c, &text) {
-                Ok(t) => t,
-                Err(p) => return panic_fail(p, k),
-            };
-            if t < FLOOR_S {
-                prev = Some((k, t));
+            // times are upper bounds: one run below the floor settles "below the floor", but an undisturbed one is
+            // preferred (it becomes the denominator of the next pair); at or above the floor an undisturbed run is
+            // required
+            let (mut any_min, mut clean_min) = (f64::INFINITY, f64::INFINITY);
+            for run in 1..=8 {
+                match self.measure(c, &text) {
+                    Ok((t, clean)) => {
+                        any_min = any_min.min(t);
+                        if clean {
+                            clean_min = clean_min.min(t);
+                        }
+                        if clean || (any_min < FLOOR_S && run >= 3) {
+                            break;
+                        }
+                    }
+                    Err(p) => return panic_fail(p, k),
+                }
+            }
+            if any_min < FLOOR_S {
+                prev = Some((k, any_min));
                 k *= STEP;
                 continue;
             }
+            if !clean_min.is_finite() {
+                return Verdict::Skip("scale:memory-noise".into());
+            }
+            let t = clean_min;
             let Some((pk, pt)) = prev else {
                 obs.class("scale:floor-at-first-step");
                 return Verdict::Skip("scale:floor-at-first-step".into());
@@ -202,16 +271,21 @@ impl C02 {
             // minima over interleaved re-measurements; stop as soon as one pair is unsuspicious
             let small = unit.repeat(pk);
             let (mut small_min, mut big_min, mut runs, mut spent) = (pt, t, 1, t);
-            while big_min >= RATIO * small_min && runs < 6 && (runs < 2 || spent < 30.0) {
-                match (self.measure(c, &small), self.measure(c, &text)) {
-                    (Ok(a), Ok(b)) => {
-                        small_min = small_min.min(a);
+            while big_min >= RATIO * small_min && runs < 4 && (runs < 2 || spent < 30.0) {
+                let a = match self.measure(c, &small) {
+                    Ok((a, _)) => a,
+                    Err(_) => return Verdict::Skip("scale:unstable".into()),
+                };
+                small_min = small_min.min(a);
+                match self.clean_min(c, &text, 1, 3) {
+                    Ok(Some(b)) => {
                         big_min = big_min.min(b);
                         spent += b;
-                        runs += 1;
                     }
-                    _ => return Verdict::Skip("scale:unstable".into()),
+                    Ok(None) => return Verdict::Skip("scale:memory-noise".into()),
+                    Err(_) => return Verdict::Skip("scale:unstable".into()),
                 }
+                runs += 1;
             }
             if big_min < RATIO * small_min {
                 obs.class_if(runs > 1, "scale:suspicious-then-cleared");
@@ -221,11 +295,12 @@ impl C02 {
                 return Verdict::Skip("scale:below-floor-after-remeasuring".into());
             }
             // shape confirmation on a x2 step: quadratic cost predicts x4, linear x2; demand > x3
+            // (an inflated half-size time only lowers the ratio, so disturbed runs are acceptable here)
             let half = unit.repeat(k / 2);
             let mut half_min = f64::INFINITY;
             for _ in 0..3 {
                 match self.measure(c, &half) {
-                    Ok(a) => half_min = half_min.min(a),
+                    Ok((a, _)) => half_min = half_min.min(a),
                     Err(_) => return Verdict::Skip("scale:unstable".into()),
                 }
             }
@@ -280,7 +355,7 @@ impl Property for C02 {
         ]
     }
     fn cases(&self, tier: Tier) -> u32 {
-        tier.pick(64_000, 4_000_000)
+        tier.pick(160_000, 8_000_000)
     }
     fn isolated(&self) -> bool {
         true
@@ -292,18 +367,21 @@ impl Property for C02 {
         300
     }
     fn max_shrink_iters(&self, tier: Tier) -> u32 {
-        tier.pick(300, 1000)
+        // every failing evaluation costs two process spawns (and seconds for a scaling case)
+        tier.pick(60, 200)
     }
     fn strategy(&self, tier: Tier) -> BoxedStrategy<Case> {
-        let max_mib: u8 = tier.pick(4, 16);
+        let max_mib: u8 = tier.pick(1, 4);
+        // 160 000 quick cases: ~158 300 texts, ~1 700 nestings, ~50 scaling units
+        let (wt, wn, ws) = (9497, 100, 3);
         let input = prop_oneof![
-            900 => crate::props::c01::text_strategy(tier).prop_map(|(text, src)| Input::Text { text, src }),
-            96 => nesting::nesting(MAX_DEPTH).prop_map(|(k, d, closed)| {
+            wt => crate::props::c01::text_strategy(tier).prop_map(|(text, src)| Input::Text { text, src }),
+            wn => nesting::nesting(MAX_DEPTH).prop_map(|(k, d, closed)| {
                 let kind = nesting::kind_name(k).to_string();
                 let cap = depth_cap(&kind);
                 Input::Nest { depth: d.min(cap), capped: d > cap, kind, closed }
             }),
-            1 => unit_strategy().prop_map(move |(unit, src)| Input::Scale { unit, src, max_mib }),
+            ws => unit_strategy().prop_map(move |(unit, src)| Input::Scale { unit, src, max_mib }),
         ];
         (input, 0u8..8, prop::bool::weighted(0.85), 0u8..4, any::<bool>(), any::<bool>())
             .prop_map(|(input, level, doc, ext, cache, special)| Case { input, level, doc, ext, cache, special })
@@ -384,7 +462,11 @@ impl Property for C02 {
             }
             Input::Scale { unit, src, max_mib } => return self.check_scale(c, unit, src, *max_mib, obs),
         };
-        eprintln!("@C02:parse");
+        // phase markers on stderr (read back by on_abort when the worker dies); only nesting inputs can overflow
+        let mark = depth > 0;
+        if mark {
+            eprintln!("@C02:parse");
+        }
         let cfg = parser_config(c, if c.cache { Some(cache) } else { None });
         let tree = match catch(|| LuaParser::parse(text, cfg)) {
             Ok(t) => t,
@@ -397,9 +479,13 @@ impl Property for C02 {
         };
         let nerr = tree.get_errors().len();
         obs.class_if(nerr > 0, "has-errors");
-        eprintln!("@C02:drop");
+        if mark {
+            eprintln!("@C02:drop");
+        }
         drop(tree);
-        eprintln!("@C02:done");
+        if mark {
+            eprintln!("@C02:done");
+        }
         Verdict::pass(depth >= 64 || nerr > 0)
     }
 }
